@@ -166,7 +166,7 @@ def build(spec):
 def obligations(tier, seed):
     out = []
     q = tier == "quick"
-    plans = [("n4q", 3, False)] if q else [("n4", 4, True), ("n5", 6, False), ("str", 3, False)]
+    plans = [("n4q", 3, False)] if q else [("n4q", 3, False), ("n4", 4, True), ("str", 3, False)]
     for cname, nfix, rev in plans:
         for fixed in itertools.product([0, 1], repeat=nfix):
             for what in ("signature", "reciprocity"):
@@ -174,7 +174,7 @@ def obligations(tier, seed):
                 out.append({"family": what, "cands": cname, "fixed": list(fixed), "what": what, "reverse": rev,
                             "mmax": 5 if q else 7, "build": ("add", "add-rev", "remove", "readd")[kb % 4],
                             "rewire": kb % 2 == 0})
-    for cname, nfix in ([("n4q", 2)] if q else [("n4", 3), ("n5", 5)]):
+    for cname, nfix in ([("n4q", 2)] if q else [("n4q", 2), ("n4", 3), ("n5", 5)]):
         for fixed in itertools.product([0, 1], repeat=nfix):
             for fm in ("none", "order", "size"):
                 out.append({"family": "degree", "cands": cname, "fixed": list(fixed), "what": "degree", "fmode": fm,
